@@ -93,6 +93,14 @@ decreasing_by
   have := getOp_bounds h
   simp only [List.length_drop]; omega
 
+/-- BIP141 witness program: a version opcode (OP_0 or OP_1 … OP_16) followed by a single direct push
+    of 2 to 40 bytes, and nothing else (total size 4 … 42). -/
+def isWitnessProgram (s : Bytes) : Bool :=
+  match s with
+  | v :: l :: _ =>
+      (v.toNat = 0 ∨ (0x51 ≤ v.toNat ∧ v.toNat ≤ 0x60)) ∧ 4 ≤ s.length ∧ s.length ≤ 42 ∧ l.toNat + 2 = s.length
+  | _ => false
+
 /-! ### hash-type decoding (interpreter.cpp: `nHashType & 0x1f`, `nHashType & SIGHASH_ANYONECANPAY`) -/
 
 def SIGHASH_NONE : Nat := 2
